@@ -6,7 +6,7 @@ from ..common import Names, rat, VERIF
 from . import c01
 
 PROP = "C08"
-LEAN_MODULE = "VK.Props.C08Scored"
+LEAN_MODULE = "VK.Check.C08"
 THEOREMS = [
     "VK.C08_scores_perm_invariant",
     "VK.C08_scores_condense_invariant",
